@@ -521,7 +521,18 @@ pub fn resolve_version<'a>(
       ) {
         let is_best_version = maybe_best_version
           .as_ref()
-          .map(|best_version| (*best_version).cmp(version).is_lt())
+          .map(|best_version| match (*best_version).cmp(version) {
+            std::cmp::Ordering::Less => true,
+            // versions that differ only in build metadata have the same
+            // precedence: break the tie by the metadata, so that the choice
+            // does not depend on the iteration order of the versions map
+            std::cmp::Ordering::Equal => best_version
+              .build
+              .iter()
+              .map(|b| b.as_str())
+              .lt(version.build.iter().map(|b| b.as_str())),
+            std::cmp::Ordering::Greater => false,
+          })
           .unwrap_or(true);
         if is_best_version {
           maybe_best_version = Some(version);
